@@ -100,6 +100,22 @@ class Slicer:
                 res.update(env[key])
             else:
                 res.roots.add(("param", body_id, local))
+        # values written through `&mut local` handed to a call (Vec::push(&mut v, x), extend, insert ..) feed it too
+        for (ub, ui) in bi.uses_of_local(local):
+            if ui < 0:
+                continue
+            st = bi.stmt(ub, ui)
+            if st.k == "assign" and st.rv.k == "ref" and st.rv.j.get("bk") == "mut" and st.rv.place.local == local and st.lhs.is_local():
+                for (cb, ci) in self._borrow_uses(bi, st.lhs.local, 0):
+                    t = body.blocks[cb].term
+                    if t.k == "call":
+                        res.sites.add((body_id, cb))
+                        if t.callee is not None:
+                            res.calls.add(t.callee.res or t.callee.path)
+                        for a in t.args:
+                            if a.place is not None and a.place.local == local:
+                                continue
+                            self._visit(body_id, a, env, res, seen, depth)
         # partial (field) writes to the local also feed it
         alld = list(defs) + bi.partial_defs(local)
         for (bb, i) in alld:
@@ -120,6 +136,20 @@ class Slicer:
                     self._call(body_id, bb, t, env, res, seen, depth)
                 elif t.k == "yield":
                     res.roots.add(("unknown", body_id, "resume"))
+
+    def _borrow_uses(self, bi, ref_local, depth):
+        """call sites that receive the reference held in ref_local (following reborrows / moves)"""
+        out = []
+        if depth > 4:
+            return out
+        for (ub, ui) in bi.uses_of_local(ref_local):
+            if ui == -1:
+                out.append((ub, ui))
+            elif ui >= 0:
+                st = bi.stmt(ub, ui)
+                if st.k == "assign" and st.lhs.is_local() and st.rv.k in ("use", "ref") and st.lhs.local != ref_local:
+                    out.extend(self._borrow_uses(bi, st.lhs.local, depth + 1))
+        return out
 
     def _enter_closure(self, body_id, rv, env, res, seen, depth):
         if depth >= self.max_depth:
